@@ -8,6 +8,7 @@ what is explored is order, composition and repetition of calls.
 from __future__ import annotations
 
 import hashlib
+import sys
 from contextlib import contextmanager
 
 import numpy as np
@@ -15,8 +16,17 @@ import numpy as np
 CONST_U = 0.37109375  # exactly representable; the "fixed random number" every event receives
 
 
-def abytes(a):
+def native(a):
+    """Same values in native byte order (a big-endian input may legitimately give a big-endian
+    output: what is compared is values, bit for bit, not storage order)."""
     a = np.asarray(a)
+    if a.dtype.byteorder in (">", "<") and not a.dtype.isnative:
+        return a.astype(a.dtype.newbyteorder("="))
+    return a
+
+
+def abytes(a):
+    a = native(a)
     return str(a.dtype).encode() + str(a.shape).encode() + np.ascontiguousarray(a).tobytes()
 
 
@@ -52,7 +62,13 @@ def layout(ch, a, label="layout"):
     20001 elements for 10**x).  That is numpy's behaviour, not the repository's, and a check
     that demanded bit-identity there raised a false alarm on Taus.tau_energy (DESIGN §9-g)."""
     a = np.asarray(a)
-    k = ch.draw(7, label)
+    k = ch.draw(9, label)
+    if a.ndim == 1 and a.size and k == 7:  # a read-only array: no stage has any business writing into its arguments
+        r = np.array(a, copy=True)
+        r.setflags(write=False)
+        return r
+    if a.ndim == 1 and a.size and k == 8 and a.dtype.kind == "f":  # non-native byte order (data read from a FITS/big-endian file)
+        return a.astype(a.dtype.newbyteorder(">" if sys.byteorder == "little" else "<"))
     if a.ndim != 1 or k < 5 or a.size == 0:
         return np.array(a, copy=True)
     if k == 5:  # every second element of a padded buffer
